@@ -74,7 +74,7 @@ Section Match.
   (* MetavarMatcher.TypeMatches on the dynamic type of the candidate *)
   Definition kind_ok (k : mkind) (t : val) : bool :=
     match k with
-    | KIdent => N.eqb (dyn_type t) T_P_ast_Ident
+    | KIdent => match t with Ptr tp _ => N.eqb tp T_P_ast_Ident | _ => false end    (* a nil *ast.Ident is no identifier *)
     | KExpr => implements (dyn_type t) T_ast_Expr
     end.
 
